@@ -73,7 +73,7 @@ var (
 	// the names and targets an escape needs, plus the CWD victim
 	coreNames   = []string{"a", "b", "a/c", "../../x", ""}
 	coreTargets = []string{".", "..", "b", "l/..", "b/evil", "victim"}
-	miniNames   = []string{"a", "b", "../../x", ""}
+	miniNames   = []string{"a", "b", ""}
 	miniTargets = []string{".", "l/..", "b/evil", "victim"}
 )
 
@@ -92,10 +92,11 @@ func families(tier string) []family {
 		}
 	}
 	return []family{
-		{name: "full3", title: "n", alpha: full, depth: 3, states: []string{"empty", "uplink"}, nsh: 256},
-		{name: "core3", title: "n", alpha: core, depth: 3, states: []string{"files"}, nsh: 48},
-		{name: "mini4", title: "n", alpha: mini, depth: 4, states: three, nsh: 128},
-		{name: "rootlinks5", title: ".", alpha: link, depth: 5, states: []string{"empty", "files"}, nsh: 64},
+		{name: "full3", title: "n", alpha: full, depth: 3, states: []string{"empty"}, nsh: 256},
+		{name: "full2", title: "n", alpha: full, depth: 2, states: []string{"files", "uplink"}, nsh: 8},
+		{name: "core3", title: "n", alpha: core, depth: 3, states: []string{"files", "uplink"}, nsh: 48},
+		{name: "mini4", title: "n", alpha: mini, depth: 4, states: three, nsh: 64},
+		{name: "rootlinks5", title: ".", alpha: link, depth: 5, states: []string{"empty"}, nsh: 64},
 		{name: "chain5", title: "n", alpha: chain, depth: 5, states: []string{"empty"}, nsh: 64},
 	}
 }
@@ -141,6 +142,7 @@ type tarRun struct {
 // outside the working directory.
 type info struct {
 	parentOutside map[string]string // name -> "" (inside) | reason
+	dmgSig        string            // signature of the outside change this sequence caused ("" = none)
 }
 
 func (t *tarRun) init() {
@@ -358,23 +360,6 @@ func (t *tarRun) runSeq(seq []int, parent info, parentOK, judge, wantInfo bool) 
 	if wantInfo {
 		in = t.observe()
 	}
-	if !judge {
-		c.Count("support_runs", 1)
-		// a support run may still damage the outside: put it back (the owning shard reports it)
-		if sb.picture() != sb.canon {
-			sb.repair()
-		}
-		return err, in
-	}
-	c.Evals++
-	c.Transitions += int64(len(seq))
-	c.Count("tar_sequences", 1)
-	c.Outcome(driver.Hash("tar", errClass(err)))
-	if err == nil {
-		c.Count("tar_accepted", 1)
-	} else {
-		c.Count("tar_rejected", 1)
-	}
 	last := t.fam.alpha[seq[len(seq)-1]]
 	anyLink, anySpecial, anyHard := false, false, false
 	for _, i := range seq {
@@ -382,21 +367,15 @@ func (t *tarRun) runSeq(seq []int, parent info, parentOK, judge, wantInfo bool) 
 		anySpecial = anySpecial || t.special[i]
 		anyHard = anyHard || t.fam.alpha[i].kind == 'h'
 	}
-	if anySpecial {
-		c.Count("nontrivial_sequences", 1)
-		if len(seq) <= 2 {
-			c.Nontriv(driver.Hash("tar", t.fam.name, t.state, t.seqString(seq)))
-		}
-	}
 	describe := func() string {
 		return fmt.Sprintf("title %q, working directory pre-populated: %s, process CWD = <top>/1/2/3/cwd, default options\narchive entries (names relative to the title; regular entries carry %q): %s\nPush returned: %v\nworking directory afterwards:\n%s",
 			t.fam.title, t.state, pwn, t.seqString(seq), err, sb.wdListing())
 	}
-	if panicked != "" {
-		t.violation("tar: Push panicked", describe())
-	}
 	// clause 1: nothing outside the working directory changed
-	if pic := sb.picture(); pic != sb.canon {
+	pic := sb.picture()
+	unchanged := pic == sb.canon
+	dmgDetail := ""
+	if !unchanged {
 		chs := pictureChanges(sb.canon, pic)
 		aliased := strings.Join(sb.aliasedIntoWD(), "\n")
 		var lines []string
@@ -415,24 +394,55 @@ func (t *tarRun) runSeq(seq []int, parent info, parentOK, judge, wantInfo bool) 
 		}
 		sig := "tar: object outside the working directory changed"
 		switch {
+		case parent.dmgSig != "":
+			sig = parent.dmgSig // the entries before the last one already did it: same defect
 		case mech == "hard":
 			sig = "tar: file outside the working directory overwritten through a hard link the archive created to it (link target resolved against the process CWD)"
-		case anyLink || t.state == "uplink":
-			sig = "tar: write outside the working directory through symbolic links that each stay lexically inside"
-			if !anyLink {
-				sig = "tar: write outside the working directory through a pre-existing internal symbolic link"
-			}
+		case parentOK && parent.parentOutside[last.name] != "":
+			sig = "tar: write outside the working directory: the entry's directory resolves outside it " + parent.parentOutside[last.name]
+		case anyLink:
+			sig = "tar: write outside the working directory through a symbolic link sitting at an entry's own name (every link target stays lexically inside)"
 		}
+		in.dmgSig = sig
+		dmgDetail = describe() + "\nchanged outside the working directory:\n" + strings.Join(lines, "\n") + "\nhard links into the working directory: " + aliased
+	}
+	linkedIn := ""
+	if unchanged && judge && anyHard && err == nil {
+		linkedIn = strings.Join(sb.aliasedIntoWD(), "\n")
+	}
+	if !judge {
+		c.Count("support_runs", 1)
+		if !unchanged {
+			sb.repair() // the owning shard reports it
+		}
+		return err, in
+	}
+	c.Evals++
+	c.Transitions += int64(len(seq))
+	c.Count("tar_sequences", 1)
+	c.Outcome(driver.Hash("tar", errClass(err)))
+	if err == nil {
+		c.Count("tar_accepted", 1)
+	} else {
+		c.Count("tar_rejected", 1)
+	}
+	if anySpecial {
+		c.Count("nontrivial_sequences", 1)
+		if len(seq) <= 2 {
+			c.Nontriv(driver.Hash("tar", t.fam.name, t.state, t.seqString(seq)))
+		}
+	}
+	if panicked != "" {
+		t.violation("tar: Push panicked", describe())
+	}
+	if !unchanged {
 		c.Count("outside_changed", 1)
-		t.violation(sig, describe()+"\nchanged outside the working directory:\n"+strings.Join(lines, "\n")+"\nhard links into the working directory: "+aliased)
-		sb.repair()
-	} else if anyHard && err == nil {
-		// clause 2 for hard links: an outside file became reachable inside
-		if al := sb.aliasedIntoWD(); len(al) > 0 {
-			c.Count("outside_file_linked_in", 1)
-			t.violation("tar: hard-link entry accepted whose target resolved (against the process CWD) to a file outside the working directory",
-				describe()+"\nsame inode: "+strings.Join(al, "\n"))
-		}
+		t.violation(in.dmgSig, dmgDetail)
+	} else if linkedIn != "" {
+		// clause 2 for hard links: an accepted archive left a file from outside reachable inside
+		c.Count("outside_file_linked_in", 1)
+		t.violation("tar: hard-link entry accepted whose target resolved (against the process CWD) to a file outside the working directory",
+			describe()+"\nsame inode: "+linkedIn)
 	}
 	// clause 2: an entry whose directory is outside must make Push fail
 	if reason := parent.parentOutside[last.name]; reason != "" && parentOK {
@@ -442,11 +452,19 @@ func (t *tarRun) runSeq(seq []int, parent info, parentOK, judge, wantInfo bool) 
 				describe()+"\nlast entry: "+last.String()+" (the entries before it were accepted on their own)")
 		}
 	}
+	if err == nil && anyLink && unchanged {
+		if n := sb.symlinksLeavingWD(); n > 0 {
+			c.Count("accepted_archives_leaving_a_symlink_that_resolves_outside_unjudged", 1)
+		}
+	}
 	if last.name == "<out>" && parentOK && err == nil {
 		c.Count("absolute_outside_name_accepted_unjudged", 1)
 	}
 	if len(c.Samples) < 1 && anyLink && len(seq) == t.fam.depth {
-		c.Sample(fmt.Sprintf("%s wd=%s: [%s] -> %s; outside unchanged=%v", t.fam.name, t.state, t.seqString(seq), errClass(err), sb.picture() == sb.canon))
+		c.Sample(fmt.Sprintf("%s wd=%s: [%s] -> %s; outside unchanged=%v", t.fam.name, t.state, t.seqString(seq), errClass(err), unchanged))
+	}
+	if !unchanged {
+		sb.repair()
 	}
 	return err, in
 }
